@@ -69,6 +69,8 @@ def generate(ck):
     ]
     # the run on which known finding K6 was first seen (sweep #5, seed 32): short first step, diffusivity high at low pressure
     descs.append({"cls": "single", "table": {"kind": "synthetic", "family": "falling", "prm": [0.9801815554428919, 0.44510113845084076, 0.6085067256192634], "n": 400, "p_lo": 50.0, "p_hi": 12000.0, "grid": "uniform", "seed": 582}, "nx": 40, "p_i": 11141.5296312227, "p_f": 557.076481561135, "r": 8, "t_end": 4.4182807181068, "levels": None, "ladder": False, "reused": False})
+    # pseudopressure referenced to a pressure between p_f and p_i (negative at the fracture face)
+    descs.append({"cls": "single", "table": {"kind": "synthetic", "family": "zlin", "prm": [0.4, 0.4, 0.5], "n": 200, "p_lo": 100.0, "p_hi": 9100.0, "grid": "uniform", "seed": 0, "datum": 0.45}, "nx": 50, "p_i": 7000.0, "p_f": 1500.0, "r": 8, "t_end": 8.0, "levels": None})
     descs.append(dict(descs[0], decoy=True, ratio=0.5))
     descs.append(dict(descs[2], decoy=True, p_f=3000.0))
     for i in range(n):
